@@ -48,6 +48,7 @@ func c07(r *core.Run) {
 	r.Rule("C07/R3", "footprint operands validated: MsgPostFile.ValidateBasic rejects FileSize and MaxProofs below 1 (and an overflowing product); the wasm entry calls ValidateBasic (C11/R4)")
 	r.Rule("C07/R4", "plan change keeps usage: in storage.MsgBuyStorage the new record's SpaceUsed ⊵ the loaded record's SpaceUsed only; when a plan is found committing paths pass Cmp(SpaceUsed <= msg.Bytes)")
 	r.Rule("C07/R6", "one notion of 'paid from the plan': for every sign class of Expires (negative / zero / positive — the field is only ever compared with constants) that MsgPostFile.ValidateBasic accepts, posting charges the plan exactly when removal refunds it")
+	r.Rule("C07/R8", "the footprint is returned once: a function that calls a file remover (which itself returns the footprint to the owner's plan) writes no plan record of its own on any path through that call")
 	r.Rule("C07/R7", "a file record is created only where none exists under its key (merkle, owner, start height): the write of storage.MsgPostFile is behind Found(file under the written key)=false, so one live record is never charged to the plan twice")
 	r.Rule("C07/R5", "the charge happens: every committing path of the plan-paid branch writes the signer's plan record with SpaceUsed ⊵ {loaded SpaceUsed, msg.FileSize, msg.MaxProofs}")
 	hs, err := p.Handlers()
@@ -162,7 +163,9 @@ func c07(r *core.Run) {
 				return true
 			}
 			// ... or an edge a plan-paid file (Expires zero) cannot take, however the comparison is spelled
-			if signExcludes(p, func(v ssa.Value, at ssa.Instruction) bool { return res(p.ProvAt(v, "", at)).HasStore(stFiles, ".Expires") }, signZero)(ca, truth) {
+			if signExcludes(p, func(v ssa.Value, at ssa.Instruction) bool {
+				return res(p.ProvAt(v, "", at)).HasStore(stFiles, ".Expires")
+			}, signZero)(ca, truth) {
 				return true
 			}
 			return false
@@ -327,6 +330,7 @@ func c07(r *core.Run) {
 	}
 	wasmDoorValidated(r, "C07/R3", hs, "storage.MsgPostFile")
 	c07PlanClass(r, hs, removers)
+	c07SingleRefund(r, removers, reach)
 	// ---- R4 BuyStorage
 	if h := core.HandlerByKey(hs, "storage.MsgBuyStorage"); h == nil {
 		r.Undecided("C07/R4", "storage.MsgBuyStorage:anchor-missing", "", "handler missing")
@@ -681,4 +685,51 @@ func c07PlanClass(r *core.Run, hs []*core.Handler, removers []c07Remover) {
 			"existence tested under the key written: "+strings.Join(want, " / "),
 			fmt.Sprintf("the existence test looks under %v but the record is written under %v", got, want))
 	}
+}
+
+// c07SingleRefund: R8 — the removers return the footprint themselves (R1); a caller that also writes the plan record
+// on a path through the removal returns it twice.
+func c07SingleRefund(r *core.Run, removers []c07Remover, reach map[*ssa.Function]bool) {
+	p := r.Prog
+	isRemover := map[*ssa.Function]bool{}
+	for _, rm := range removers {
+		isRemover[rm.fn] = true
+	}
+	n := 0
+	for _, fn := range core.SortedFuncs(reach) {
+		if isRemover[fn] {
+			continue
+		}
+		var calls []ssa.CallInstruction
+		allInstrs(fn, func(in ssa.Instruction) {
+			if c, ok := in.(ssa.CallInstruction); ok {
+				for _, cal := range p.Callees(c) {
+					if isRemover[cal] {
+						calls = append(calls, c)
+					}
+				}
+			}
+		})
+		if len(calls) == 0 {
+			continue
+		}
+		n++
+		r.Analysed(core.FnName(fn))
+		bad := ""
+		for _, e := range p.Effects(fn) {
+			if !effHas(e, "Set", stPay) {
+				continue
+			}
+			for _, c := range calls {
+				if e.Instr == ssa.Instruction(c) {
+					continue // the removal itself
+				}
+				if core.PathExists(fn, nil, e.Instr, c) || core.PathExists(fn, nil, c, e.Instr) {
+					bad = p.InstrPos(e.Instr)
+				}
+			}
+		}
+		r.Check(bad == "", "C07/R8", core.FnName(fn)+":footprint-returned-once", p.InstrPos(calls[0]), "no plan write next to the removal", "the function writes the plan record ("+bad+") on a path that also removes the file through a remover that returns the footprint itself: the footprint is returned twice and the plan reports less than its live files hold")
+	}
+	r.Floor("C07/R8", n, 2, "callers of file removers")
 }
